@@ -94,7 +94,7 @@ def case_st(draw, shapes):
     sc = draw(scen.scenario_st(shapes, measure="none",
                                weight_kinds=("none", "int", "dyadic")))
     sc["query"]["extras"] = draw(filter_block_st())
-    tx, inforce = draw(xforms.slice_insertions_st(sc, where="either", max_ins=2,
+    tx, inforce = draw(xforms.slice_insertions_st(sc, where="either", max_ins=3,
                                                   allow_malformed=False))
     sc["transforms"] = tx
     sc["insertions"] = inforce
@@ -135,6 +135,20 @@ def judge(case, rec):
             prop = np.asarray(part.table_proportions, dtype=float)
             err = np.asarray(part.table_proportion_stderrs, dtype=float)
         diff = [orc.is_diff(s) for s in rspecs]
+        # --- the proportion / standard error the estimates are built from (also public;
+        # --- they decide the estimate even when the population argument is 0 or absent)
+        pp = np.asarray(part.population_proportions, dtype=float)
+        pe = np.asarray(part.population_proportion_stderrs, dtype=float)
+        rec.compared(2)
+        if pp.shape != prop.shape or not all(
+                close(pp[i], None if diff[i] else prop[i]) for i in range(len(rspecs))):
+            rec.violation("strand population_proportions = %r; the matching proportion is %r "
+                          "(NaN for differences %r)" % (pp.tolist(), prop.tolist(), diff),
+                          "pop-proportions1")
+        if pe.shape != err.shape or not all(
+                diff[i] or close(pe[i], err[i]) for i in range(len(rspecs))):
+            rec.violation("strand population_proportion_stderrs = %r; the matching standard "
+                          "error is %r" % (pe.tolist(), err.tolist()), "pop-stderr1")
         for i in range(len(rspecs)):
             want_c = None if diff[i] else P * frac * prop[i]
             rec.compared(2)
@@ -182,6 +196,18 @@ def judge(case, rec):
         if prop is not None:
             prop = np.asarray(prop, dtype=float)
             err = np.asarray(err, dtype=float)
+            pp = np.asarray(part.population_proportions, dtype=float)
+            pe = np.asarray(part.population_std_err, dtype=float)
+            dmask = np.array([[orc.is_diff(r_) or orc.is_diff(c_) for c_ in cspecs]
+                              for r_ in rspecs], dtype=bool).reshape(prop.shape)
+            rec.compared(2)
+            if pp.shape != prop.shape or not _all(pp, np.where(dmask, np.nan, prop)):
+                rec.violation("population_proportions = %r; the matching proportion is %r "
+                              "(NaN on differences)" % (pp.tolist(), prop.tolist()),
+                              "pop-proportions")
+            if pe.shape != err.shape or not _all(pe[~dmask], err[~dmask]):
+                rec.violation("population_std_err = %r; the matching standard error is %r" % (
+                    pe.tolist(), err.tolist()), "pop-stderr")
             for i, rs in enumerate(rspecs):
                 for j, cs in enumerate(cspecs):
                     d = orc.is_diff(rs) or orc.is_diff(cs)
